@@ -569,9 +569,10 @@ def main(ctx, args):
         # block numbering: `lay` of the source shape against the arms of the real MIR (named functions of generated programs)
         lay_lines, lay_meta = [], []
         for idx, (c, k, f) in enumerate(cfg_meta):
+            unique = sum(1 for g in res[c["id"]]["cfg"] if g["label"] == f["label"]) == 1     # a lambda bound to `let f3 = …` is labelled f3 too
             if "prog" in c:
                 fn = next((x for x in c["prog"].fns + [c["prog"].dsp] if x.name == f["label"]), None)
-                if fn is not None:
+                if fn is not None and unique:
                     lay_lines.append(f"lay\t{len(lay_meta)}\t{shape_of(fn.body)}\n")
                     lay_meta.append(idx)
             elif f["label"] in c.get("shapes", {}):           # corpus programs carry hand-written shapes (match / enum)
